@@ -200,6 +200,7 @@ func judge(prop, tier string, seed int, res *runResult, start time.Time, writeBa
 	var samples []map[string]any
 	dischargedNames := map[string]bool{}
 	failedNames := map[string]bool{}
+	unboundSeen := map[string]bool{}
 	for _, o := range res.obls {
 		bn := baseName(o.Name)
 		for _, r := range o.Results {
@@ -239,6 +240,16 @@ func judge(prop, tier string, seed int, res *runResult, start time.Time, writeBa
 			continue
 		}
 		failedNames[bn] = true
+		if o.BindErr != "" {
+			// the contract of this function does not bind to the code any more: nothing
+			// it fails to prove is evidence against the code
+			if !unboundSeen[o.Func] {
+				unboundSeen[o.Func] = true
+				fmt.Printf("CONTRACT-ERROR: %s: %s -- the contract has to follow the code; obligations of this function that no longer discharge are UNDECIDED, not violations\n", o.Func, o.BindErr)
+			}
+			undecided = append(undecided, map[string]any{"obligation": o.Name, "verdict": o.Verdict, "kind": o.Kind, "clause": o.Clause, "reason": "contract does not bind: " + o.BindErr})
+			continue
+		}
 		if refuted(o) || inBase[bn] {
 			claimed++
 			violations = append(violations, o)
